@@ -27,7 +27,7 @@ GO_RUNS = [
      "harness": ["providerdual/c14_test.go"]},
 ]
 
-N = {"quick": 330, "thorough": 4200}
+N = {"quick": 330, "thorough": 3000}
 GO_TIMEOUT = {"quick": 600, "thorough": 1500}
 
 RULE = ("per component (standard DHT, dual DHT, accelerated client, provider manager, value store, refresh manager, sweeping provider, "
